@@ -3,9 +3,13 @@
 (M) spec/sys/Heap.tla: objects refer to containers and are immutable once created; TLC proves Immutable / BornEqual /
     ExecStable on all histories of the container model when transforms only write to containers they allocated, and must
     find a counterexample when aliased writes are allowed (model-level negative control: the defect pattern).
-(G) spec/gen/HeapGen.tla enumerates the histories  Create; Execute; Transform_k; [Transform_j on k's output | on the
-    original]; Execute(original)  over the live registry of public transforms (discovered by introspection) and the
-    acceptance relation observed on the code.
+(M2) spec/sys/HeapData.tla: the parameter level (operators refer to data that are immutable scalars or mutable arrays); TLC
+    proves BornEqual / Immutable without in-place accumulation and shows that the accumulate-into-the-first-parameter pattern
+    breaks them exactly when the parameters are mutable objects -> the parameter representation is an input dimension.
+(G) spec/gen/HeapGen.tla enumerates the histories  Create(family, instance, parameter representation); Execute; Transform_k;
+    [Transform_j on k's output | on the original]; Execute(original)  over the live registry of public transforms (discovered
+    by introspection; a transform called through its optional arguments is a registry entry of its own) and the acceptance
+    relation observed on the code.
 (C) code -> spec: the driver runs every history on real tapes, fingerprints EVERY live tape after every event (so before
     and after each call), re-executes the original on a freshly seeded default.qubit, and Trace_Heap.tla decides at every
     step that every object still has its birth value, component by component."""
@@ -76,8 +80,10 @@ def registry():
     return reg, skipped, len(T)
 
 
-def make_tape(fam, inst, seed):
-    return R.FAMILIES[fam](random.Random(seed * 1000003 + sum(map(ord, fam)) * 1009 + inst))
+def make_tape(fam, inst, seed, rep=1):
+    rng = random.Random(seed * 1000003 + sum(map(ord, fam)) * 1009 + inst)
+    rng.rep = R.REPS[rep - 1]           # how gate parameters are handed to the circuit (float / ndarray / tensor / batch)
+    return R.FAMILIES[fam](rng)
 
 
 def run_history(h, reg, fams, seed, stats):
@@ -96,8 +102,8 @@ def run_history(h, reg, fams, seed, stats):
     for ev in h:
         if ev["e"] == "create":
             fam = fams[ev["c"] - 1]
-            meta["fam"], meta["inst"] = fam, ev["i"]
-            objs[1] = make_tape(fam, ev["i"], seed)
+            meta["fam"], meta["inst"], meta["rep"] = fam, ev["i"], R.REPS[ev.get("r", 1) - 1]
+            objs[1] = make_tape(fam, ev["i"], seed, ev.get("r", 1))
             events.append({"e": "create", "k": "", "on": 0, "res": "", "exc": "", "obs": observe()})
         elif ev["e"] == "execute":
             dg, _ = R.result_digest(objs[ev["on"]])
@@ -176,12 +182,18 @@ def corrupt(tr, meta, rng):
         c = clone()
         c["events"][-1]["res"] = c["events"][-1]["res"] + "x"               # re-execution gives another result
         out.append((c, "result"))
+        other = [i for i, o in enumerate(ev[-1]["obs"]) if o["id"] != ev[-1]["on"]]
+        if other:                                                           # an execution may only ever touch the tape it executes
+            c = clone()
+            c["events"][-1]["obs"][other[0]]["fp"]["shots"] = c["events"][-1]["obs"][other[0]]["fp"]["shots"] + [1]
+            out.append((c, "shots"))
     return out
 
 
-def gen(wd, fams, ninst, accepts, first, chain, two, execpairs):
+def gen(wd, fams, ninst, accepts, first, chain, two, execpairs, reps=None):
     st = lambda ps: "{" + ",".join(f"<<{k},{c}>>" for k, c in sorted(ps)) + "}"
-    g = lib.run_tlc_mc("HeapGen", {"Accepts": st(accepts), "ExecPairs": st(execpairs), "First": "{" + ",".join(map(str, sorted(first))) + "}",
+    reps = {(c + 1, 1) for c in range(len(fams))} if reps is None else reps
+    g = lib.run_tlc_mc("HeapGen", {"Accepts": st(accepts), "ExecPairs": st(execpairs), "Reps": st(reps), "First": "{" + ",".join(map(str, sorted(first))) + "}",
                                    "Chain": "{" + ",".join(map(str, sorted(chain))) + "}"},
                        wd, constants={"NFam": len(fams), "NInst": ninst, "TwoStage": "TRUE" if two else "FALSE"}, constraints=["Emit"], timeout=3000)
     lib.require_ok(g, "HeapGen")
@@ -215,6 +227,23 @@ def run(tier, seed):
         raise lib.MachineryError("model-level negative control: aliased writes did not violate BornEqual")
     runs = [m, mneg]
     neg_ok = 1
+    # ---------------- (M2) the parameter level: in-place accumulation is observable iff parameters are mutable objects
+    dm = {}
+    for tag, mut, inpl in (("documented", "TRUE", "FALSE"), ("inplace_mutable", "TRUE", "TRUE"), ("inplace_scalars", "FALSE", "TRUE")):
+        r = lib.run_tlc("HeapData", lib.cfg(constants={"MaxObjs": 3 if quick else 4, "MaxData": 5 if quick else 7, "Vals": "{1,2}", "Mutables": mut,
+                                                       "InPlaceAcc": inpl}, invariants=["BornEqual"],
+                                             properties=[] if tag == "inplace_mutable" else ["Immutable"]),
+                        lib.workdir("C18", "data_" + tag), timeout=3000)
+        if tag == "inplace_mutable":
+            if r.invariant_violated != "BornEqual":
+                raise lib.MachineryError("model-level negative control: in-place accumulation into mutable parameters was not rejected")
+            neg_ok += 1
+        else:
+            if r.invariant_violated:
+                raise lib.MachineryError(f"HeapData ({tag}) violates {r.invariant_violated}")
+            lib.require_ok(r, "HeapData " + tag)
+        dm[tag] = r
+        runs.append(r)
     phases["model"] = round(time.time() - T0, 1)
 
     reg, skipped, n_found = registry()
@@ -259,8 +288,26 @@ def run(tier, seed):
         tr, meta = run_history(h, reg, fams, seed, stats)
         traces.append(tr); metas.append(meta); hists.append(h)
     phases["phase2"] = round(time.time() - T0, 1)
-    if len(traces) < 500:
-        raise lib.MachineryError(f"too few histories ({len(traces)})")
+    # ---------------- phase 3: the parameter representation (mutable arrays owned by the input circuit, HeapData.tla)
+    rep_fams = ({"nd0": ["rot", "embed", "accum"], "pnp": ["embed", "accum"], "nd1": ["accum"]} if quick else
+                {"nd0": ["rot", "embed", "accum", "ctrl", "bcast", "unitary", "rzonly", "cnotrz", "mw_probs"], "pnp": ["rot", "embed", "accum", "noncomm"],
+                 "nd1": ["accum", "rot", "rzonly"]})
+    reps3 = {(fams.index(f) + 1, R.REPS.index(r) + 1) for r, fs in rep_fams.items() for f in fs}
+    fam3 = {c for c, _ in reps3}
+    acc3 = {(k + 1, c) for k in range(len(reg)) for c in fam3
+            if names[k] not in too_slow and (fams[c - 1] in accepted.get(names[k], ()) or fams[c - 1] == "accum")}
+    n12 = len(traces)
+    g3 = gen(lib.workdir("C18", "gen3"), fams, 1 if quick else 2, acc3, range(1, len(reg) + 1), [], False, acc3, reps3)
+    runs.append(g3)
+    for j in g3.json_lines:
+        h = j["hist"]
+        h[0]["i"] += 200
+        tr, meta = run_history(h, reg, fams, seed, stats)
+        traces.append(tr); metas.append(meta); hists.append(h)
+    phases["phase3"] = round(time.time() - T0, 1)
+    mut_eff = sum(1 for mt in metas[n12:] if any(not s["exc"] and s["effective"] for s in mt["steps"]))
+    if len(traces) < 500 or mut_eff < 100:
+        raise lib.MachineryError(f"too few histories ({len(traces)}; {mut_eff} effective ones on mutable parameters)")
 
     # ---------------- trace validation
     batch = list(traces)
@@ -298,9 +345,18 @@ def run(tier, seed):
 
     # ---------------- verdicts -> violations
     by_key, moved, err_path = {}, 0, {}
+    exec_changed = {"traces": 0, "note": "the executed tape itself differs right after qp.execute (the instrument, not a transform: outside the "
+                                          "statement; TLC re-baselines the object and counts it)", "examples": []}
     for i, (tr, meta) in enumerate(zip(traces, metas)):
-        clause, step, obj, mv = verd[i]
+        clause, step, obj, mv, nexec = verd[i]
         moved += mv == "moved"
+        if nexec:
+            exec_changed["traces"] += 1
+            f = meta["full"].get(1, [])
+            ch = next(((c, f[0][c], x[c]) for x in f[1:] for c in ("ops", "meas", "par", "tr", "shots", "hash", "bs") if x[c] != f[0][c]), None)
+            if ch and len(exec_changed["examples"]) < 3 and all(e["family"] != meta["fam"] or e["rep"] != meta.get("rep") for e in exec_changed["examples"]):
+                exec_changed["examples"].append({"family": meta["fam"], "instance": meta.get("inst"), "rep": meta.get("rep"), "component": ch[0],
+                                                 "before": str(ch[1])[:200], "after": str(ch[2])[:200]})
         if clause == "ok":
             continue
         ev = tr["events"][step - 1]
@@ -325,7 +381,8 @@ def run(tier, seed):
                 break
         comp = {"operations": "ops", "measurements": "meas", "parameters": "par", "trainable_params": "tr", "shots": "shots", "hash": "hash", "batch_size": "bs"}.get(clause)
         detail = (f"Trace_Heap rejects event {step} ({ev['e']} {ev['k']} on object {ev['on']}) of the history "
-                  f"{[(e['e'], e['k'], e['on']) for e in tr['events']]} on circuit family '{meta['fam']}' instance {meta.get('inst')}: component "
+                  f"{[(e['e'], e['k'], e['on']) for e in tr['events']]} on circuit family '{meta['fam']}' instance {meta.get('inst')} "
+                  f"(parameters as {meta.get('rep')}): component "
                   f"'{clause}' of object {obj} differs from its birth value")
         if comp:
             detail += f"; before: {before.get(comp)} ; after: {after.get(comp)}"
@@ -349,6 +406,13 @@ def run(tier, seed):
                 if s["kind"] != "tapes":
                     values[s["k"]] = s["kind"]
     uncovered = sorted(n for n in names if not applied.get(n))
+    nowire = sum(1 for mt in metas if mt["fam"].startswith("mw_") for s in mt["steps"] if not s["exc"])
+    variants_applied = sorted(n for n in applied if n in R.VARIANTS)
+    by_rep = {}
+    for mt in metas:
+        by_rep[mt.get("rep")] = by_rep.get(mt.get("rep"), 0) + 1
+    if nowire < 100 or len(variants_applied) < 25:
+        raise lib.MachineryError(f"vacuous: {nowire} accepted applications on wire-less measurements, {len(variants_applied)} optional-argument variants applied")
     if len(applied) < 60:
         raise lib.MachineryError(f"vacuous: only {len(applied)} transforms were applied successfully; uncovered: {uncovered}")
     samples = []
@@ -362,11 +426,11 @@ def run(tier, seed):
     nontriv = set()
     for i, meta in enumerate(metas):
         if any(s["effective"] for s in meta["steps"]):
-            nontriv.add((meta["fam"], meta.get("inst"), tuple((s["k"], s["on"]) for s in meta["steps"])))
+            nontriv.add((meta["fam"], meta.get("inst"), meta.get("rep"), tuple((s["k"], s["on"]) for s in meta["steps"])))
     cov = {"states": sum(x.distinct for x in runs), "transitions": sum(x.generated for x in runs),
            "traces_validated_against_impl": len(traces), "evaluations": sum(applied.values()) + sum(rejected.values()),
            "distinct_nontrivial": len(nontriv),
-           "rule": "TLC enumerates every history Create; Execute; Transform_k; [Transform_j on the first output | on the original]; Execute over "
+           "rule": "TLC enumerates every history Create(family, instance, parameter representation); Execute; Transform_k; [Transform_j on the first output | on the original]; Execute over "
                    "(transform, circuit family, instance); non-trivial = distinct (family, instance, transform sequence) in which at least one "
                    "transform was accepted and returned something different from its input",
            "samples": samples, "exhaustive": True,
@@ -374,16 +438,21 @@ def run(tier, seed):
            "transforms_with_an_effective_application": sum(1 for v in effective.values() if v), "transforms_never_accepted": uncovered,
            "transforms_skipped": skipped, "transforms_cut_short_for_time": sorted(too_slow), "informative_transforms": values,
            "applications_accepted": sum(applied.values()), "applications_rejected_by_transform": sum(rejected.values()),
-           "mutations_on_error_path": err_path, "executions_of_original": stats["executions"],
-           "two_stage_histories": len(h2), "traces_with_reallocated_containers_or_ops(mechanism)": moved,
+           "mutations_on_error_path": err_path, "tape_changed_by_its_own_execution": exec_changed, "executions_of_original": stats["executions"],
+           "two_stage_histories": len(h2), "histories_by_parameter_representation": by_rep,
+           "effective_applications_on_mutable_parameters": mut_eff, "accepted_applications_on_wireless_measurements": nowire,
+           "optional_argument_variants_applied": variants_applied, "traces_with_reallocated_containers_or_ops(mechanism)": moved,
            "negative_controls_rejected": neg_ok, "trace_negative_control_kinds": kinds, "cumulative_wall_s": phases,
            "model": {"module": "Heap", "invariants": ["BornEqual", "ExecStable", "Immutable (action property)"], "states": m.distinct,
-                     "aliased_writes_counterexample": mneg.invariant_violated}}
+                     "aliased_writes_counterexample": mneg.invariant_violated},
+           "model_parameters": {"module": "HeapData", "invariants": ["BornEqual", "Immutable (action property)"], "states": dm["documented"].distinct,
+                                "in_place_accumulation_on_mutable_arrays": "rejected", "in_place_accumulation_on_immutable_scalars": "unobservable (holds)"}}
     return CheckResult(coverage=cov, violations=viol, assumptions=[
         "a tape's observable value = operations and measurements by value (class, repr, wires, data, operator hash), parameters, trainable "
         "indices, shots, recomputed hash, batch size; container / operator identity is recorded as mechanism only",
         "re-execution on default.qubit with a fixed device seed is deterministic for an unchanged tape",
-        "each transform is called with one minimal valid-argument recipe; circuits come from %d seeded families" % len(R.FAMILIES)])
+        "each transform is called with one minimal valid-argument recipe plus, for %d of them, a recipe through its optional arguments; circuits "
+        "come from %d seeded families x parameter representations %s" % (len(R.VARIANTS), len(R.FAMILIES), R.REPS)])
 
 
 def replay(path, tier="quick", seed=0):
